@@ -114,5 +114,11 @@ func baseHistories() []baseHistory {
 			op("checkin", 1, 0, 0), op("seen", 1, 0, 0), op("cfg", 0, 0, 0), op("cfg", 1, 0, 0), endblock,
 			op("commit", 0, 0, 1), op("result", 0, 0, 0), op("result", 1, 0, 0), endblock, endblock,
 		}},
+		{Name: "H6 n=3 t=2, genesis document with the fork height 3 in the legacy field: key changes before and after that height", Genesis: appx.Genesis{Members: []int{0, 1, 2}, Threshold: 2, LegacyFork: 3}, Ops: []appx.Op{
+			op("checkin", 0, 0, 0), op("checkin", 1, 0, 0), op("seen", 0, 0, 0), op("seen", 1, 0, 0), endblock,
+			op("checkin", 0, 1, 0), op("checkin", 2, 0, 0), endblock,
+			op("checkin", 1, 1, 0), endblock,
+			op("checkin", 0, 1, 0), op("checkin", 2, 1, 0), endblock, endblock,
+		}},
 	}
 }
